@@ -32,6 +32,9 @@ type RegSpec struct {
 	// Scheme2 != "": the registry switches to it after SwitchAt requests
 	Scheme2  string `json:"scheme2,omitempty"`
 	SwitchAt int    `json:"switchAt,omitempty"`
+	// Enforce: a bearer token is accepted only when its scopes cover what the
+	// requested path needs, and the challenge names that scope (next to Challenge)
+	Enforce bool `json:"enforce,omitempty"`
 }
 
 // Act is one action of a history.
@@ -44,6 +47,8 @@ type Act struct {
 	Hints    []string `json:"hints,omitempty"`
 	HintMode int      `json:"hintMode,omitempty"` // 0 WithScopes, 1 WithScopesForHost
 	K        int      `json:"k,omitempty"`
+	// Mixed: the callers of a burst address different resources (different scope sets)
+	Mixed bool `json:"mixed,omitempty"`
 }
 
 // Case is one world plus a history.
@@ -89,6 +94,7 @@ func genCase(t *rapid.T) Case {
 				ss = append(ss, rapid.SampledFrom(scopePool).Draw(t, "cscope"))
 			}
 			r.Challenge = strings.Join(ss, " ")
+			r.Enforce = rapid.IntRange(0, 2).Draw(t, "enforce") != 0
 		}
 		if rapid.IntRange(0, 4).Draw(t, "redirect") == 0 {
 			r.Redirect = hostNames[(i+1)%n]
@@ -114,6 +120,7 @@ func genCase(t *rapid.T) Case {
 		case r < 9:
 			a.Kind = "burst"
 			a.K = rapid.IntRange(2, 8).Draw(t, "k")
+			a.Mixed = rapid.IntRange(0, 2).Draw(t, "mixed") == 0
 		default:
 			a.Kind = "expire"
 		}
@@ -129,6 +136,39 @@ func genCase(t *rapid.T) Case {
 		}
 		a.HintMode = rapid.IntRange(0, 1).Draw(t, "hintMode")
 		c.Acts = append(c.Acts, a)
+	}
+	return c
+}
+
+// genMixed: histories made of bursts whose callers need different scope sets at one
+// scope-enforcing bearer registry, separated by token expiry, for every cache flavour.
+func genMixed(t *rapid.T) Case {
+	c := Case{Cache: rapid.SampledFrom([]string{"single", "single", "shared", "none"}).Draw(t, "cache")}
+	c.OAuth2 = rapid.IntRange(0, 3).Draw(t, "forceOAuth2") == 0
+	for i := 0; i < 2; i++ {
+		r := RegSpec{Host: hostNames[i], Scheme: rapid.SampledFrom([]string{"bearer", "oauth2"}).Draw(t, "scheme"), Enforce: true}
+		if r.Scheme == "bearer" {
+			r.CredKind = rapid.SampledFrom([]string{"userpass", "none"}).Draw(t, "credKind")
+		} else {
+			r.CredKind = rapid.SampledFrom([]string{"refresh", "userpass"}).Draw(t, "credKind2")
+		}
+		r.RealmHost = r.Host
+		if rapid.Bool().Draw(t, "foreignRealm") {
+			r.RealmHost = rapid.SampledFrom(realmNames).Draw(t, "realmHost")
+		}
+		if rapid.Bool().Draw(t, "extraScope") {
+			r.Challenge = rapid.SampledFrom(scopePool).Draw(t, "cscope")
+		}
+		c.Regs = append(c.Regs, r)
+	}
+	rounds := rapid.IntRange(4, 12).Draw(t, "rounds")
+	for i := 0; i < rounds; i++ {
+		h := rapid.IntRange(0, 1).Draw(t, "host")
+		a := Act{Kind: "burst", Host: h, K: rapid.IntRange(2, 6).Draw(t, "k"), Mixed: true, Path: mixedTargets[0].path, Method: "GET"}
+		if rapid.IntRange(0, 2).Draw(t, "hinted") == 0 {
+			a.Hints = []string{rapid.SampledFrom(scopePool).Draw(t, "hint")}
+		}
+		c.Acts = append(c.Acts, a, Act{Kind: "expire", Host: h, Path: mixedTargets[0].path, Method: "GET"})
 	}
 	return c
 }
@@ -175,6 +215,71 @@ func canon(scopes []string) []string {
 	return out
 }
 
+// required is the scope a request needs at a scope-enforcing registry.
+func required(path, method string) string {
+	switch {
+	case path == "/v2/_catalog":
+		return "registry:catalog:*"
+	case strings.HasPrefix(path, "/v2/lib/base/"):
+		return "repository:lib/base:pull"
+	case strings.HasPrefix(path, "/v2/app/"):
+		if method == http.MethodPost {
+			return "repository:app:pull,push"
+		}
+		return "repository:app:pull"
+	}
+	return ""
+}
+
+// challengeFor is the scope string of the registry's Bearer challenge for a request.
+func challengeFor(r *RegSpec, path, method string) string {
+	if !r.Enforce {
+		return r.Challenge
+	}
+	extras := strings.Fields(r.Challenge)
+	need := required(path, method)
+	if need == "" {
+		return r.Challenge
+	}
+	if len(extras)%2 == 0 {
+		return strings.Join(append([]string{need}, extras...), " ")
+	}
+	return strings.Join(append(extras, need), " ")
+}
+
+// covers reports whether a canonical scope list grants every action of need.
+func covers(have []string, need string) bool {
+	if need == "" {
+		return true
+	}
+	j := strings.LastIndex(need, ":")
+	res, acts := need[:j], strings.Split(need[j+1:], ",")
+	for _, h := range have {
+		k := strings.LastIndex(h, ":")
+		if k < 0 || h[:k] != res {
+			continue
+		}
+		got := map[string]bool{}
+		for _, a := range strings.Split(h[k+1:], ",") {
+			got[a] = true
+		}
+		if got["*"] {
+			return true
+		}
+		for _, a := range acts {
+			if !got[a] {
+				return false
+			}
+		}
+		return true
+	}
+	return false
+}
+
+var mixedTargets = []struct{ path, method string }{
+	{"/v2/app/manifests/latest", "GET"}, {"/v2/lib/base/tags/list", "GET"}, {"/v2/_catalog", "GET"}, {"/v2/app/blobs/uploads/", "POST"},
+}
+
 // ---------------------------------------------------------------------------------
 // the world
 
@@ -189,6 +294,7 @@ type minted struct {
 type seenReq struct {
 	host    string
 	path    string
+	method  string
 	auth    string
 	body    string
 	query   string
@@ -213,6 +319,8 @@ type world struct {
 	switched        map[string]bool // scheme change took place (between two calls, never inside one)
 	gateUntil401    int             // burst: token endpoint waits until this many 401s were sent
 	n401            int
+	tokBarrier      int // mixed burst: token fetches are answered together once this many wait
+	tokWaiting      int
 	viol            []string
 }
 
@@ -247,7 +355,7 @@ func (w *world) RoundTrip(req *http.Request) (*http.Response, error) {
 	id, _ := req.Context().Value(callIDKey{}).(int)
 	w.mu.Lock()
 	host := req.URL.Host
-	sr := seenReq{host: host, path: req.URL.Path, auth: req.Header.Get("Authorization"), body: string(body), query: req.URL.RawQuery, callID: id}
+	sr := seenReq{host: host, path: req.URL.Path, method: req.Method, auth: req.Header.Get("Authorization"), body: string(body), query: req.URL.RawQuery, callID: id}
 	isRealmPath := req.URL.Path == "/token"
 	sr.isRealm = isRealmPath
 	w.seen = append(w.seen, sr)
@@ -267,6 +375,24 @@ func (w *world) RoundTrip(req *http.Request) (*http.Response, error) {
 				time.Sleep(200 * time.Microsecond)
 			}
 			time.Sleep(3 * time.Millisecond)
+			// callers with different scope sets fetch separately: answer them at the
+			// same moment so that their cache updates coincide
+			w.mu.Lock()
+			barrier := w.tokBarrier
+			w.tokWaiting++
+			w.mu.Unlock()
+			if barrier > 1 {
+				deadline := time.Now().Add(8 * time.Millisecond)
+				for time.Now().Before(deadline) {
+					w.mu.Lock()
+					ok := w.tokWaiting >= barrier
+					w.mu.Unlock()
+					if ok {
+						break
+					}
+					time.Sleep(50 * time.Microsecond)
+				}
+			}
 		}
 		w.mu.Lock()
 		defer w.mu.Unlock()
@@ -292,7 +418,7 @@ func (w *world) RoundTrip(req *http.Request) (*http.Response, error) {
 			if tk == atok(host) && r.CredKind == "access" {
 				ok = true
 			} else if m, has := w.tokens[tk]; has && m.service == host && !w.expired[tk] {
-				ok = true
+				ok = !r.Enforce || covers(m.scopes, required(req.URL.Path, req.Method))
 			}
 		}
 	}
@@ -314,8 +440,8 @@ func (w *world) RoundTrip(req *http.Request) (*http.Response, error) {
 		} else {
 			realm := "https://" + r.RealmHost + "/token"
 			ch := fmt.Sprintf(`Bearer realm=%q,service=%q`, realm, host)
-			if r.Challenge != "" {
-				ch += fmt.Sprintf(`,scope=%q`, r.Challenge)
+			if cs := challengeFor(r, req.URL.Path, req.Method); cs != "" {
+				ch += fmt.Sprintf(`,scope=%q`, cs)
 			}
 			h.Set("Www-Authenticate", ch)
 			if w.advertised[host] == nil {
@@ -518,7 +644,7 @@ func runInner(c Case) (res vt.Result, fail *vt.Fail) {
 	callID := 0
 	covered := map[string]map[string]bool{} // host -> canonical scope sets a valid token was minted for
 	hostsTouched := map[string]bool{}
-	cacheHit, rechallenge := false, false
+	cacheHit, rechallenge, mixedOverlap := false, false, false
 	doOne := func(a Act, id int) (*http.Response, error) {
 		r := c.Regs[a.Host]
 		ctx := context.WithValue(context.Background(), callIDKey{}, id)
@@ -592,6 +718,10 @@ func runInner(c Case) (res vt.Result, fail *vt.Fail) {
 			if k > 1 {
 				w.n401 = 0
 				w.gateUntil401 = k
+				w.tokBarrier, w.tokWaiting = 0, 0
+				if a.Mixed {
+					w.tokBarrier = min(k, len(mixedTargets))
+				}
 			} else {
 				w.gateUntil401 = 0
 			}
@@ -608,7 +738,12 @@ func runInner(c Case) (res vt.Result, fail *vt.Fail) {
 				wg.Add(1)
 				go func(g, id int) {
 					defer wg.Done()
-					rs, err := doOne(a, id)
+					ag := a
+					if a.Mixed {
+						tg := mixedTargets[(g+a.K)%len(mixedTargets)]
+						ag.Path, ag.Method, ag.Body = tg.path, tg.method, 0
+					}
+					rs, err := doOne(ag, id)
 					outs[g] = out{rs, err}
 				}(g, id)
 			}
@@ -660,7 +795,16 @@ func runInner(c Case) (res vt.Result, fail *vt.Fail) {
 			// one token fetch (two tolerated for a straggler that arrives after the
 			// first fetch completed and before its result was stored)
 			sch := r.Scheme
-			if k >= 3 && (sch == "bearer" || sch == "oauth2") && r.Scheme2 == "" && c.Cache == "shared" && r.CredKind != "access" {
+			if a.Mixed && k > 1 {
+				res.Classes = append(res.Classes, "burst-with-different-scope-sets")
+				if r.Enforce && (sch == "bearer" || sch == "oauth2") {
+					res.Classes = append(res.Classes, "burst-with-different-scope-sets-at-enforcing-registry-cache-"+c.Cache)
+					if tokFetches >= 2 {
+						mixedOverlap = true
+					}
+				}
+			}
+			if k >= 3 && !a.Mixed && (sch == "bearer" || sch == "oauth2") && r.Scheme2 == "" && c.Cache == "shared" && r.CredKind != "access" {
 				if tokFetches > 2 {
 					return res, vt.Failf("C16/token-fetch-not-shared", "action %d: a burst of %d equal requests to %s caused %d token fetches", i, k, r.Host, tokFetches)
 				}
@@ -670,7 +814,7 @@ func runInner(c Case) (res vt.Result, fail *vt.Fail) {
 			// later call whose hints + challenge scopes canonicalise to the same set
 			// (in whatever order or duplication) must be served from the cache
 			if k == 1 && c.Cache == "shared" && (sch == "bearer" || sch == "oauth2") && r.Scheme2 == "" && r.CredKind != "access" && r.Redirect == "" && wellFormed(a.Hints) && outs[0].err == nil {
-				key := fmt.Sprint(canon(append(append([]string(nil), a.Hints...), strings.Fields(r.Challenge)...)))
+				key := fmt.Sprint(canon(append(append([]string(nil), a.Hints...), strings.Fields(challengeFor(&r, a.Path, a.Method))...)))
 				if covered[r.Host][key] && tokFetches > 0 {
 					return res, vt.Failf("C16/token-not-reused-for-equal-scope-set", "action %d: a token for host %s and scope set %s was already cached, but this call (hints %v, challenge %q) fetched a new one", i, r.Host, key, a.Hints, r.Challenge)
 				}
@@ -684,12 +828,12 @@ func runInner(c Case) (res vt.Result, fail *vt.Fail) {
 			// (the single-context cache is documented to fall back to a per-host token
 			// whatever the scopes; the scope-set rule is judged for NewCache and no cache)
 			if (sch == "bearer" || sch == "oauth2") && r.Scheme2 == "" && r.CredKind != "access" && c.Cache != "single" {
-				want := canon(append(append([]string(nil), a.Hints...), strings.Fields(r.Challenge)...))
 				w.mu.Lock()
 				for _, sr := range reqs {
 					if sr.host != r.Host || sr.isRealm || !strings.HasPrefix(sr.auth, "Bearer TK~") {
 						continue
 					}
+					want := canon(append(append([]string(nil), a.Hints...), strings.Fields(challengeFor(&r, sr.path, sr.method))...))
 					m := w.tokens[strings.TrimPrefix(sr.auth, "Bearer ")]
 					if m.alt != "" || w.redirectedFrom[sr.callID] != "" {
 						continue // a challenge of this call arrived via a cross-host redirect
@@ -700,7 +844,7 @@ func runInner(c Case) (res vt.Result, fail *vt.Fail) {
 					}
 					if !okScopes {
 						w.mu.Unlock()
-						return res, vt.Failf("C16/token-reused-for-other-scopes", "action %d: request to %s presented a token minted for scopes %v; hints %v + challenge %q canonicalise to %v", i, r.Host, m.scopes, a.Hints, r.Challenge, want)
+						return res, vt.Failf("C16/token-reused-for-other-scopes", "action %d: request to %s presented a token minted for scopes %v; hints %v + challenge %q canonicalise to %v", i, r.Host, m.scopes, a.Hints, challengeFor(&r, sr.path, sr.method), want)
 					}
 				}
 				w.mu.Unlock()
@@ -710,7 +854,7 @@ func runInner(c Case) (res vt.Result, fail *vt.Fail) {
 			return res, f
 		}
 	}
-	res.NonTrivial = len(hostsTouched) >= 2 && c.Cache == "shared" && cacheHit && rechallenge
+	res.NonTrivial = (len(hostsTouched) >= 2 && c.Cache == "shared" && cacheHit && rechallenge) || (mixedOverlap && c.Cache != "none")
 	res.Classes = append(res.Classes, "cache-"+c.Cache)
 	if cacheHit {
 		res.Classes = append(res.Classes, "cache-hit")
@@ -788,9 +932,11 @@ func runScopes(c ScopeCase) (res vt.Result, fail *vt.Fail) {
 }
 
 func TestMain(m *testing.M) {
+	vt.ReplayRepeat["mixed"] = 300
 	vt.Main(m, "C16",
 		vt.NewLeg("main", 1200, 4000, 16, genCase, runCase),
 		vt.NewLeg("scopes", 5000, 20000, 4, genScopes, runScopes),
+		vt.NewLeg("mixed", 300, 1500, 8, genMixed, runCase),
 	)
 }
 
